@@ -33,6 +33,10 @@ pub enum Api {
     ChainOrSingleExact,
     /// SequentialMultiIterator::new_or_single_it, outer iterator with size_hint (0, Some(n)) (a filter adaptor)
     ChainOrSingleInexact,
+    /// SequentialMultiIterator::new_or_single_it, outer iterator once(first).chain(rest.filter(..)): size_hint (1, Some(n))
+    ChainOrSingleLower1,
+    /// SequentialMultiIterator::new_or_single_it, outer iterator with size_hint (1, None)
+    ChainOrSingleLower1Unbounded,
 }
 impl Api {
     fn name(&self) -> &'static str {
@@ -42,6 +46,8 @@ impl Api {
             Api::ChainNew => "chain_new",
             Api::ChainOrSingleExact => "chain_or_single_exact_hint",
             Api::ChainOrSingleInexact => "chain_or_single_inexact_hint",
+            Api::ChainOrSingleLower1 => "chain_or_single_hint_1_some_n",
+            Api::ChainOrSingleLower1Unbounded => "chain_or_single_hint_1_none",
         }
     }
     fn parse(s: &str) -> Option<Api> {
@@ -51,6 +57,8 @@ impl Api {
             "chain_new" => Api::ChainNew,
             "chain_or_single_exact_hint" => Api::ChainOrSingleExact,
             "chain_or_single_inexact_hint" => Api::ChainOrSingleInexact,
+            "chain_or_single_hint_1_some_n" => Api::ChainOrSingleLower1,
+            "chain_or_single_hint_1_none" => Api::ChainOrSingleLower1Unbounded,
             _ => return None,
         })
     }
@@ -190,6 +198,21 @@ fn source_msgs(case: &Case, b: usize, s: usize) -> Vec<DltMessage> {
         times.iter().enumerate().map(|(p, t)| gen_msg(b, s, p, *t)).collect()
     }
 }
+/// iterator adaptor reporting a chosen (correct but inexact) size_hint
+struct Hinted<I> {
+    inner: I,
+    hint: (usize, Option<usize>),
+}
+impl<I: Iterator> Iterator for Hinted<I> {
+    type Item = I::Item;
+    fn next(&mut self) -> Option<I::Item> {
+        self.inner.next()
+    }
+    fn size_hint(&self) -> (usize, Option<usize>) {
+        self.hint
+    }
+}
+
 fn make_source(case: &Case, b: usize, s: usize) -> Src {
     let times = &case.buckets[b][s];
     if case.reader {
@@ -368,6 +391,18 @@ pub fn run_case(ctx: &mut Ctx, case: &Case) {
                 SequentialMultiIterator::new_or_single_it(start, srcs.into_iter().filter(|_| true)),
                 limit,
             ),
+            Api::ChainOrSingleLower1 | Api::ChainOrSingleLower1Unbounded => {
+                // a legal but inexact size_hint of the outer iterator: lower bound 1, upper bound n (or unknown)
+                let n = srcs.len();
+                let hint = if n == 0 {
+                    (0, Some(0))
+                } else if case.api == Api::ChainOrSingleLower1 {
+                    (1, Some(n))
+                } else {
+                    (1, None)
+                };
+                collect_bounded(SequentialMultiIterator::new_or_single_it(start, Hinted { inner: srcs.into_iter(), hint }), limit)
+            }
         }
     });
     ctx.transitions(total as u64 + 1);
@@ -399,7 +434,7 @@ pub fn run_case(ctx: &mut Ctx, case: &Case) {
             ctx.landmark("tie_between_source_heads");
         }
     }
-    let shortcut = nb == 1 && matches!(case.api, Api::MergeOrSingle | Api::ChainOrSingleExact);
+    let shortcut = nb == 1 && matches!(case.api, Api::MergeOrSingle | Api::ChainOrSingleExact | Api::ChainOrSingleLower1);
     if shortcut {
         ctx.landmark("single_source_shortcut");
     }
@@ -652,8 +687,8 @@ impl Prop for C09 {
         let quick = ctx.tier == Tier::Quick;
         let starts = [Start::At(0), Start::At(1000), Start::MaxFit];
         let merge = [Api::MergeNew, Api::MergeOrSingle];
-        let chain = [Api::ChainNew, Api::ChainOrSingleExact, Api::ChainOrSingleInexact];
-        let all = [Api::MergeNew, Api::MergeOrSingle, Api::ChainNew, Api::ChainOrSingleExact, Api::ChainOrSingleInexact];
+        let chain = [Api::ChainNew, Api::ChainOrSingleExact, Api::ChainOrSingleInexact, Api::ChainOrSingleLower1, Api::ChainOrSingleLower1Unbounded];
+        let all = [Api::MergeNew, Api::MergeOrSingle, Api::ChainNew, Api::ChainOrSingleExact, Api::ChainOrSingleInexact, Api::ChainOrSingleLower1, Api::ChainOrSingleLower1Unbounded];
 
         // (1) merge and chain over Vec-backed sources
         if !self.flat_family(ctx, "merge", 3, 3, 3, &merge, &starts, false) {
